@@ -7,6 +7,9 @@ ids=${@:-$(ls seeded)}
 for id in $ids; do
   prop=${id%%-*}
   out=seeded/$id
+  # a change written against one property may be one that another property's
+  # check is responsible for (e.g. a thread schedule): seeded/<id>/check names it
+  [ -f $out/check ] && prop=$(cat $out/check)
   chk=$(VERIF_PATCH=$PWD/$out/patch.diff VERIF_JOBS=${VERIF_JOBS:-16} ./vcheck $prop --tier quick 2>&1); rc=$?
   first=$(echo "$chk" | grep -E "^  C[0-9]" | head -2 | cut -c1-300 | tr '\n' ' ' | tr '"' "'")
   /venv/bin/python - "$out/confirm.json" "$rc" "$first" <<'PY'
